@@ -61,7 +61,7 @@ def export_landmark_file(landmarks_object, fp, extension=None, overwrite=False):
         # unless this is LJSON, this is not correct.
         fp_is_path = isinstance(fp, (str, Path))
         if (extension is not None and extension != ".ljson") or (
-            fp_is_path and Path(fp).suffix != ".ljson"
+            fp_is_path and Path(fp).suffix.lower() != ".ljson"
         ):
             m1 = (
                 "Only the LJSON format supports multiple "
